@@ -7,6 +7,10 @@ def T(qcases, tcases, qbudget=240, tbudget=1500, workers=16):
             "thorough": dict(cases=tcases, budget_s=tbudget, workers=workers)}
 
 PROPS = {
+    "C05": dict(sources=["props/C05.cpp"], jls=True, mrb_size=1 << 22, tiers=T(250, 4000),
+                assumptions=["decoder follows format.h/README; where they are silent (SOURCE_DEF/SIGNAL_DEF serialisation, string terminator {0,0x1f}, annotation payload header) it follows the de-facto layout and reports deviations as observations only",
+                             "structural predicates are asserted for chunks reachable from the initial lists, head tables and index entries; byte-level predicates for every chunk (orphans left by repair are counted)",
+                             "threaded origin uses real threads with a 4 MiB queue (JLS_VERIF_MRB_BUFFER_SIZE); schedules are explored by C06"]),
     "C12": dict(sources=["props/C12.cpp"], jls=True, tiers=T(300, 4000),
                 assumptions=["UTC sample ids are reported relative to the first sample id; anchors lie within [first sample - 1 h, last sample] (what the reader documents loading)",
                              "times advance by at least one tick per sample (strictly increasing), spans stay below 2^50 ticks so that the 1-tick bound is meaningful for double arithmetic",
@@ -43,6 +47,10 @@ PROPS = {
 HOOK_COMMITS = ["6203c3e4032b5e35344eee56bc8020982a6abdeb"]
 
 MANIFEST_TEXT = {
+    "C05": dict(
+        technique="differential testing against an independent decoder written from the specification (explicit byte offsets, own CRC), plus model comparison; generated programs via four production paths",
+        level_text="Every generated file (sync writer, threaded writer, jls_copy output, repaired crash image from an exact write-log replay) is walked by a second decoder that shares no code or headers with the library: header/payload CRCs, alignment, zero pad, header length, prev-length chain, link symmetry and list membership, head tables, index trees (kind/signal/level/timestamp of every target), INDEX immediately followed by SUMMARY. Its content (definitions, samples, summaries at every level, annotations, UTC, user data) must equal the model and what the library reader returns.",
+        level_note="Trusted: decoder.h (about 400 lines, reviewed against format.h) and the model. Summary values are compared with the C02 tolerances. Sampling of programs; not exhaustive."),
     "C12": dict(
         technique="model-based property testing: generated anchor tables x generated queries against a list model and exact rational interpolation (__int128)",
         level_text="Anchor tables with 0,1,2,3, decimate+-1, decimate^2+1, 999/1000/1001 and 2000 entries (the map's initial capacity and its first growth), rates 1 Hz..1 GHz, drift and irregular spacing, first-sample offsets; jls_rd_utc from many start ids must deliver exactly the pairs at or after the start; id->time is exact at anchors, non-decreasing, within 1 tick of the exact linear inter/extrapolation, and time->id returns within 1 sample.",
